@@ -103,6 +103,7 @@ Definition decodeQuestion (p : slice) (index : Z) (buffer : slice) : res (questi
     r <- decodeNameZ p index (buf_of buffer) ;;
     let name := fst (fst r) in
     let endq := snd (fst r) in
+    if Nat.ltb (len p) (endq + 4) then Err EParseFrame else
     t <- be16_at p endq ;;
     c <- be16_at p (endq + 2) ;;
     Ok (mkQ name t c, (endq + 4)%nat).
